@@ -122,6 +122,10 @@ func solveReports(reps []*FuncReport, dir string, timeout time.Duration, par int
 	// second pass: anything not discharged is retried almost alone with three times the timeout, so that a loaded machine
 	// cannot turn a provable obligation into an alarm
 	sem2 := make(chan struct{}, 1)
+	if os.Getenv("GOVC_NORETRY") != "" {
+		// development aid only (never set by vcheck): skip the slow second pass
+		return
+	}
 	for _, rep := range reps {
 		if rep.Err != nil || rep.VC == nil {
 			continue
@@ -129,6 +133,9 @@ func solveReports(reps []*FuncReport, dir string, timeout time.Duration, par int
 		rep := rep
 		for i, o := range rep.VC.obls {
 			if o.Expect == "sat" || rep.Results[i].Status == "unsat" || rep.Results[i].Status == "sat" || rep.Results[i].File == "" {
+				continue
+			}
+			if skipRetry[shortKey(rep.Key)+":"+o.Name] {
 				continue
 			}
 			wg.Add(1)
@@ -149,6 +156,9 @@ func solveReports(reps []*FuncReport, dir string, timeout time.Duration, par int
 }
 
 var emitMu sync.Mutex
+
+// skipRetry: full names (func:obligation) of obligations that get no second pass (open known findings)
+var skipRetry map[string]bool
 
 func solveAll(rep *FuncReport, dir string, timeout time.Duration, par int) {
 	solveReports([]*FuncReport{rep}, dir, timeout, par)
